@@ -32,7 +32,7 @@ func draw(t *rapid.T) *pbt.Case {
 		sg = gen.Hostile()
 	}
 	c.SetStr("alphabet", alpha)
-	g := gen.Default(sg).Boost(3, safeCarriers...).Boost(2, "sentinel").Boost(2, gen.BarrierKinds...).Boost(2, "secondary", "combine").With("netopsrc")
+	g := gen.Default(sg).Boost(3, safeCarriers...).Boost(2, "sentinel").Boost(2, gen.BarrierKinds...).Boost(2, "secondary", "combine").With("netopsrc", "uwrapstackdetails", "uwrapstackdetails")
 	// Construct the feature: safe strings behind a barrier or in a
 	// secondary error: a hidden sub-tree with boosted safe carriers.
 	hidden := g.Draw(t, rapid.IntRange(1, 5).Draw(t, "hiddenbudget"))
